@@ -420,9 +420,51 @@ def nshards(tier):
     return 32
 
 
+def check_long_lived(acc):
+    """A long-lived process: more requests than the statistics keep samples for (2**14 per route and status) have gone
+    through StatsMiddleware; the next ones - under every position the sampling can draw, the random source being a
+    scripted seam - are still answered exactly like without the middleware."""
+    import clastic.middleware.stats as st
+
+    class Script(object):
+        value = None
+
+        def random(self):
+            return 0.0 if self.value is None else self.value
+    script = Script()
+    orig = st.random
+    st.random = script
+    try:
+        for stack in (('stats',), ('gzip', 'stats'), ('stats', 'cache')):
+            app, base = build(stack), build(())
+            want = call(base, '/resp', 'GET', 'b=kb', None, b'')
+            n_fill = 2 ** 14 + 3
+            for _ in range(n_fill):
+                app(wsgi.make_environ('/resp', 'GET', query='b=kb'), lambda s, h, e=None: None)
+            acc.transitions += n_fill
+            total = n_fill
+            for idx in (0, 1, 2 ** 14 - 1, 2 ** 14, 2 ** 14 + 1, total - 1, total, total + 1):
+                script.value = min(0.999999999, (idx + 0.5) / float(total + 2))
+                res = call(app, '/resp', 'GET', 'b=kb', None, b'')
+                total += 1
+                acc.transitions += 1
+                acc.validated += 1
+                if res.raised is not None or res.code != want.code or res.body != want.body:
+                    acc.violation('C15:long-lived:%s' % res.code, 'after %d requests through %r the next one (sampling position %d) answered '
+                                  '%s %r, without the middlewares %s' % (total, stack, idx, res.status, res.raised, want.status),
+                                  {'long_lived': True, 'stack': list(stack)})
+                    return
+            script.value = None
+        acc.outcome('long-lived|ok')
+    finally:
+        st.random = orig
+
+
 def shard(tier, i, n, seed):
     common.setup_repo()
     acc = common.Acc()
+    if i == 5 % n:
+        check_long_lived(acc)
     baseline = build(())
     cache = {}
     for k, stack in enumerate(stacks(tier)):
@@ -449,6 +491,11 @@ def finish(tier, merged, results):
 
 
 def replay(case):
+    if case.get('long_lived'):
+        common.setup_repo()
+        acc = common.Acc()
+        check_long_lived(acc)
+        return (False, acc.violations[0]['desc'][:2000]) if acc.violations else (True, 'ok')
     common.setup_repo()
     acc = common.Acc()
     stack = tuple(case['stack'])
